@@ -23,6 +23,12 @@ func InitGenesis(ctx sdk.Context, k keeper.Keeper, genState types.GenesisState) 
 	}
 	for _, elem := range genState.RewardList {
 		k.SetReward(ctx, elem)
+		// the per-account grant counters of capped campaigns are not part of the genesis state:
+		// one grant was counted for every reward of such a campaign
+		if camp, found := k.GetCampaign(ctx, elem.CampaignUID); found && camp.CapCount > 0 {
+			count, _ := k.GetRewardGrantsStats(ctx, elem.CampaignUID, elem.Receiver)
+			k.SetRewardGrantsStats(ctx, elem.CampaignUID, elem.Receiver, count+1)
+		}
 	}
 	for _, elem := range genState.RewardByCategoryList {
 		reward, found := k.GetReward(ctx, elem.UID)
@@ -50,6 +56,8 @@ func ExportGenesis(ctx sdk.Context, k keeper.Keeper) *types.GenesisState {
 	genesis := types.DefaultGenesis()
 	genesis.Params = k.GetParams(ctx)
 
+	genesis.PromoterList = k.GetAllPromoter(ctx)
+	genesis.PromoterByAddressList = k.GetAllPromoterByAddress(ctx)
 	genesis.CampaignList = k.GetAllCampaign(ctx)
 	genesis.RewardList = k.GetAllRewards(ctx)
 	genesis.RewardByCategoryList = k.GetAllRewardsByReceiverAndCategory(ctx)
